@@ -76,7 +76,7 @@ claimed.update({
 })
 claimed.update({
  "C18": dict(
-   text="All increment/aging/resize sequences up to length 5 (quick) / 6 (thorough) over 3 keys whose raw hashes range over an adversarial set found by search (same block and same four counters; same block; counters adjacent inside one 64-bit word; high-bit difference; 0; all ones), for capacities {1,2,3,7,8,9,16,17,100} incl. a mid-sequence ensureCapacity, plus long runs across the natural aging point: estimate >= recordings of the period (capped 15), <= 15, halved by aging, 0 before initialisation; admit() for every (candidate, victim) estimate pair x 9 random answers.",
+   text="All increment/aging/resize sequences up to length 5 (quick) / 6 (thorough) over 3 keys whose raw hashes range over an adversarial set found by search (same block and same four counters; same block; counters adjacent inside one 64-bit word; high-bit difference; 0; all ones), for capacities {1,2,3,7,8,9,16,17,100} incl. a mid-sequence ensureCapacity, plus long runs across the natural aging point: estimate >= recordings of the period (capped 15), <= 15, halved by aging, 0 before initialisation; admit() for every (candidate, victim) estimate pair x 9 random answers; growth of a table that has recorded traffic (no aging before the new period is full); admission inside the eviction loop: every small layout of the window/probation/protected queues (weights, estimates) x lowered maxima, evictNodes run on the real policy, a main-space resident is displaced only by a distinct window-origin entry with a strictly greater estimate or when none is left undecided.",
    note="Drives the private sketch/policy through verification-only exports; hashes go through the hashing seam.",
    technique="explicit-state exploration of the implementation: exhaustive enumeration of recording sequences and estimate pairs against exact per-period counts",
    ref="5/C18"),
